@@ -19,6 +19,7 @@ import (
 	"github.com/zenon-network/go-zenon/wallet"
 
 	"verif/lab/core"
+	"verif/lab/ledger"
 	"verif/lab/node"
 	"verif/lab/walk"
 )
@@ -152,7 +153,13 @@ func pagingLaw(run *core.Run, q pagedQuery, stats map[string]string) {
 func c18Paging(run *core.Run) {
 	walk.LabConstants()
 	node.Clock.Set(time.Unix(1000000000, 0))
-	p, err := node.New("rpc-paging", node.Options{Producer: true})
+	// the mock configuration gives all its fusions the zero id, so entries of one owner overwrite each other while the fused
+	// counters add up (the recorded C20 finding); here every fusion gets an id of its own, so that entries and counters agree
+	cfg := cloneGenesis(g.EmbeddedGenesis)
+	for i, f := range cfg.PlasmaConfig.Fusions {
+		f.Id = types.NewHash([]byte(fmt.Sprintf("fusion-%d", i)))
+	}
+	p, err := node.New("rpc-paging", node.Options{Producer: true, Genesis: cfg})
 	if err != nil {
 		core.Fatal("%v", err)
 	}
@@ -268,6 +275,7 @@ func c18Paging(run *core.Run) {
 	for _, q := range qs {
 		pagingLaw(run, q, stats)
 	}
+	c18Storage(run, p, owners)
 	// the bridge's lists, on a node of their own: the prepared bridge of the Bridge.tla replay, seven wrap requests on three
 	// kinds of pair, five unwrap requests of which one is revoked
 	func() {
@@ -341,4 +349,157 @@ func c18Paging(run *core.Run) {
 	if nonEmpty < 10 {
 		core.Fatal("vacuity: only %d paged queries have a non-empty list", nonEmpty)
 	}
+}
+
+// c18Storage: what the embedded queries say about an account against the entries the lab reads from the contracts' storage
+// with its own iteration (ledger.Liabilities: key ranges walked directly, not through the contracts' list helpers).
+func c18Storage(run *core.Run, p *node.Node, sentinelOwners []*wallet.KeyPair) {
+	ms := p.Chain.GetFrontierMomentumStore()
+	entries := ledger.Liabilities(ms)
+	z := node.Z{N: p}
+	sa, pa, pl, se, li := embedded.NewStakeApi(z), embedded.NewPillarApi(z, true), embedded.NewPlasmaApi(z), embedded.NewSentinelApi(z), embedded.NewLiquidityApi(z)
+	rep := func(key, what string) {
+		run.Report("C18:query-differs-from-storage-"+key, what, map[string]interface{}{"kind": "embedded-query-vs-storage", "what": what})
+	}
+	set := func(kind string, owner types.Address, byAlt bool) (map[string]string, *big.Int) {
+		out, sum := map[string]string{}, new(big.Int)
+		for _, e := range entries {
+			who := e.Owner
+			if byAlt {
+				who = e.Alt
+			}
+			if e.Kind == kind && who == owner.String() && e.Amt.Sign() > 0 { // a cancelled stake stays stored with amount zero until its rewards are settled
+				out[e.Id] = e.Amt.String()
+				sum.Add(sum, e.Amt)
+			}
+		}
+		return out, sum
+	}
+	same := func(a, b map[string]string) bool {
+		if len(a) != len(b) {
+			return false
+		}
+		for k, v := range a {
+			if b[k] != v {
+				return false
+			}
+		}
+		return true
+	}
+	accounts := []types.Address{g.User1.Address, g.User2.Address, g.User3.Address, g.User4.Address, g.User5.Address}
+	for _, k := range sentinelOwners {
+		accounts = append(accounts, k.Address)
+	}
+	compared := 0
+	for _, a := range accounts {
+		// stakes
+		want, sum := set("stake", a, false)
+		if l, err := sa.GetEntriesByAddress(a, 0, 1024); err != nil {
+			rep("stake.getEntriesByAddress", fmt.Sprintf("%v: %v", a, err))
+		} else {
+			got := map[string]string{}
+			for _, e := range l.Entries {
+				got[e.Id.String()] = e.Amount.String()
+			}
+			if !same(got, want) || l.TotalAmount.Cmp(sum) != 0 || l.Count != len(want) {
+				rep("stake.getEntriesByAddress", fmt.Sprintf("%v: the query lists %d stakes totalling %v (count %d), the contract's storage holds %d totalling %v", a, len(got), l.TotalAmount, l.Count, len(want), sum))
+			}
+			compared++
+		}
+		// fusions made by the account, and the amount fused for it
+		want, sum = set("fusion", a, false)
+		if l, err := pl.GetEntriesByAddress(a, 0, 1024); err != nil {
+			rep("plasma.getEntriesByAddress", fmt.Sprintf("%v: %v", a, err))
+		} else {
+			got := map[string]string{}
+			for _, e := range l.Fusions {
+				got[e.Id.String()] = e.QsrAmount.String()
+			}
+			if !same(got, want) || l.QsrAmount.Cmp(sum) != 0 || l.Count != len(want) {
+				rep("plasma.getEntriesByAddress", fmt.Sprintf("%v: the query lists %d fusions totalling %v (count %d), the contract's storage holds %d totalling %v", a, len(got), l.QsrAmount, l.Count, len(want), sum))
+			}
+			compared++
+		}
+		_, fusedFor := set("fusion", a, true)
+		if info, err := pl.Get(a); err != nil {
+			rep("plasma.get", fmt.Sprintf("%v: %v", a, err))
+		} else {
+			if info.QsrAmount.Cmp(fusedFor) != 0 {
+				rep("plasma.get", fmt.Sprintf("%v: the query says %v QSR are fused for the account, the fusion entries naming it as beneficiary add up to %v", a, info.QsrAmount, fusedFor))
+			}
+			if info.CurrentPlasma > info.MaxPlasma {
+				rep("plasma.get-current-above-max", fmt.Sprintf("%v: current plasma %d above the maximum %d", a, info.CurrentPlasma, info.MaxPlasma))
+			}
+			compared++
+		}
+		// liquidity stakes
+		want, _ = set("liquidity-stake", a, false)
+		if l, err := li.GetLiquidityStakeEntriesByAddress(a, 0, 1024); err == nil && l != nil {
+			got := map[string]string{}
+			for _, e := range l.Entries {
+				got[e.Id.String()] = e.Amount.String()
+			}
+			if !same(got, want) {
+				rep("liquidity.getLiquidityStakeEntriesByAddress", fmt.Sprintf("%v: the query lists %d stakes, the contract's storage holds %d", a, len(got), len(want)))
+			}
+			compared++
+		}
+		// sentinel
+		wantS, _ := set("sentinel-znn", a, false)
+		if info, err := se.GetByOwner(a); err != nil {
+			rep("sentinel.getByOwner", fmt.Sprintf("%v: %v", a, err))
+		} else {
+			if (info != nil && info.Active) != (len(wantS) > 0) {
+				rep("sentinel.getByOwner", fmt.Sprintf("%v: the query says active sentinel = %v, the contract's storage holds %d collateral entries of the account", a, info != nil && info.Active, len(wantS)))
+			}
+			compared++
+		}
+		// deposited QSR
+		for _, c := range []struct {
+			name string
+			addr types.Address
+			get  func(types.Address) (string, error)
+		}{{"pillar", types.PillarContract, pa.GetDepositedQsr}, {"sentinel", types.SentinelContract, se.GetDepositedQsr}} {
+			dep := new(big.Int)
+			for _, e := range entries {
+				if e.Kind == "qsr-deposit" && e.C == c.addr.String() && e.Owner == a.String() {
+					dep.Add(dep, e.Amt)
+				}
+			}
+			if got, err := c.get(a); err != nil || got != dep.String() {
+				rep(c.name+".getDepositedQsr", fmt.Sprintf("%v: the query says %s (%v), the contract's storage holds %v", a, got, err, dep))
+			}
+			compared++
+		}
+	}
+	// pillars: every stored, not revoked pillar is listed with its owner, and the other way round; names are free exactly if unused
+	stored := map[string]string{}
+	for _, e := range entries {
+		if e.Kind == "pillar" {
+			stored[e.Id] = e.Owner
+		}
+	}
+	if l, err := pa.GetAll(0, 1024); err == nil {
+		got := map[string]string{}
+		for _, x := range l.List {
+			got[x.Name] = x.StakeAddress.String()
+		}
+		if !same(got, stored) {
+			rep("pillar.getAll", fmt.Sprintf("the query lists pillars %v, the contract's storage holds collateral of %v", got, stored))
+		}
+		for name := range stored {
+			if free, err := pa.CheckNameAvailability(name); err != nil || free {
+				rep("pillar.checkNameAvailability", fmt.Sprintf("the name %q of a registered pillar is reported as available (%v)", name, err))
+			}
+			if x, err := pa.GetByName(name); err != nil || x == nil || x.StakeAddress.String() != stored[name] {
+				rep("pillar.getByName", fmt.Sprintf("pillar %q: the query answers %v (%v), the storage says owner %s", name, x, err, stored[name]))
+			}
+			compared += 2
+		}
+		if free, err := pa.CheckNameAvailability("a-name-nobody-uses"); err != nil || !free {
+			rep("pillar.checkNameAvailability", fmt.Sprintf("an unused name is reported as taken (%v)", err))
+		}
+	}
+	run.Traces += int64(compared)
+	run.Set("embedded_queries_compared_with_storage", fmt.Sprintf("%d answers (stake, fusion and liquidity-stake entries and totals, fused amount by beneficiary, sentinel status, deposited QSR of %d accounts; pillar list, names) compared with the entries the lab reads from the contracts' storage by its own iteration (%d entries)", compared, len(accounts), len(entries)))
 }
